@@ -24,6 +24,7 @@ NARROW_AFTER_CHECK = {
 
 
 def run(ctx):
+    shared.borrow(ctx, 'C03', '8y ', '10y postponed-removal-keeps-its-place-in-the-log-order')   # F59 also leaves the entries of the removed tree allocated after a crash
     shared.borrow(ctx, 'C11', '3x2 ', '10x2 later-writes-of-the-root-wait-for-its-pending-removal')   # F49 also breaks the slot accounting / the content of the re-inserted tree
     shared.walk_frees_children_of_the_root_found(ctx, '10w')   # F69
     F = ctx.F
@@ -134,7 +135,12 @@ def run(ctx):
             continue
         some = lib.prune_option_field(b, '.ValueTable.free_entries', keep_some=True)
         stores = [bi for bi, t in b.calls() if call_matches(t, lib.ATOMIC_STORE) and ({'.ValueTable.filled', '.ValueTable.last_removed'} & lib.receiver_fields(b, t, 0))]
-        ctx.ob('5a slot-counter-stores %s' % fn, 'anchor', fn, 'the function updates filled / last_removed', len(stores) >= 1 and bool(some), 'stores %s prune %s' % (stores, len(some)))
+        if not stores:
+            # the stores were moved into a closure of the function (iterator chain): the call that is handed the closure stands for them
+            for cl in lib.bodies_of(F, fn)[1:]:
+                if any(call_matches(t, lib.ATOMIC_STORE) and ({'.ValueTable.filled', '.ValueTable.last_removed'} & lib.receiver_fields(cl, t, 0)) for _, t in cl.calls()):
+                    stores += [u[1] for u in lib.closure_use_sites(F, cl) if u[0] is b]
+        ctx.ob('5a slot-counter-stores %s' % fn, 'anchor', fn, 'the function updates filled / last_removed', len(stores) >= 1 and (bool(some) or bool(lib.must_sites(b, ['re:RwLock.*::write$']))), 'stores %s prune %s' % (stores, len(some)))
         for i, s in enumerate(stores):
             live = lib.guards_live_at(b, s, removed_edges=some)
             ok = any('RwLockWriteGuard' in ty and 'table::FreeEntries' in ty for l, ty, cls in live)
